@@ -610,7 +610,17 @@ func c19mOne(ctx *vh.Ctx, c *c19mCase) error {
 	for _, h := range c.Handlers {
 		ctx.Res.Dist("merge:handler=" + h)
 	}
-	ctx.Res.Count("merge:"+vh.Canon(c), len(srcs) >= 2 && mixed)
+	// (by the case alone, so that the count does not depend on the picks of the merged reader)
+	shortSum, nShort, nLong := 0, 0, 0
+	for _, m := range srcs {
+		if m.Len <= 2 {
+			shortSum += m.Len
+			nShort++
+		} else {
+			nLong++
+		}
+	}
+	ctx.Res.Count("merge:"+vh.Canon(c), nShort >= 1 && nLong >= 1 && c.Consume >= shortSum+40)
 	ctx.Res.Sample(c)
 	model := map[string]any{"ask": ask, "verdict": v}
 	if !v.Admissible || trace.Bad > 0 || !prefixOK {
